@@ -260,10 +260,13 @@ def check(F, rep, tier):
         f = fmx[0]; rep.fn_seen(f)
         cg = mir.CallGraph(F)
         reach = cg.closure([f.path], generic=False)
-        mb = any((t[1].get("decl") or "") == "std::iter::Iterator::max_by" for bi, t in f.calls())
+        import tables as _tb
+        shape, det = _tb.max_choice_shape(F, f)
+        mb = shape in ("max_by", "running-max")
         ords = [p for p in reach if p.endswith("::cmp") and ("impl std::cmp::Ord for crate::version::semver::core::SemVer" in p or "impl std::cmp::Ord for crate::version::pep440::core::PEP440" in p)]
         if mb and len(ords) == 2: rep.ok("R02.5", "the tag on a commit is chosen with max_by over <SemVer|PEP440 as Ord>::cmp", nontrivial_key="maxby")
-        else: rep.bad("R02.5", "tag-choice", "the tag of a commit is not chosen with Iterator::max_by over the version orderings (max_by %s, orderings reached %d)" % (mb, len(ords)), f.where())
+        elif shape == "unknown" and len(ords) == 2: rep.undecided("R02.5", "tag-choice-shape", "how find_max_version_tag picks the greatest tag is not recognised (%s)" % det, f.where())
+        else: rep.bad("R02.5", "tag-choice", "the tag of a commit is not chosen as the maximum over the version orderings (shape %s %s, orderings reached %d)" % (shape, det or "", len(ords)), f.where())
     # ---- R02.6 dirty polarity -----------------------------------------------------------------------------------------------------
     d = F.fn(G + "is_dirty")
     if rep.anchor("R02.6", "GitVcs::is_dirty", d):
@@ -277,6 +280,25 @@ def check(F, rep, tier):
                 if v[0] == "un" and v[1] == "Not" and v[2][0] == "call" and str(v[2][1]).endswith("::is_empty"): good = True
         if good: rep.ok("R02.6", "is_dirty = !porcelain_output.is_empty()", nontrivial_key="dirty")
         else: rep.bad("R02.6", "dirty-polarity", "is_dirty does not return the negation of output.is_empty()", d.where())
+    # ---- R02.7 the repository root is the nearest ancestor that has a `.git` entry of any kind -----------------------------------
+    fr = F.fn("crate::vcs::find_vcs_root_with_limit")
+    if rep.anchor("R02.7", "vcs::find_vcs_root_with_limit", fr):
+        rep.fn_seen(fr)
+        tests = []
+        for bi, t in fr.calls():
+            c = mir.callee(t) or ""
+            if not (c.startswith("std::path::Path::") or c.startswith("std::path::PathBuf::") or c.startswith("std::fs::")): continue
+            last = c.rsplit("::", 1)[-1]
+            if last not in ("exists", "is_dir", "is_file", "try_exists", "metadata", "symlink_metadata", "is_symlink", "read_dir"): continue
+            on_git = any(k == "const" and ".git" in d for k, d in mir.deep_origins(fr, t[2][0], stop=())) if t[2] else False
+            if on_git: tests.append((last, bi))
+        if not tests: rep.undecided("R02.7", "root-test-shape", "no file-system test of a `.git` path found in find_vcs_root_with_limit", fr.where())
+        for last, bi in tests:
+            site = "%s bb%d line %s" % (fr.where(), bi, fr.blocks[bi]["line"])
+            if last in ("exists", "try_exists"): rep.ok("R02.7", "a directory is the repository root when `.git` exists in it (directory or file)", sample=site, nontrivial_key="root%d" % bi)
+            elif last in ("is_dir", "is_file", "read_dir", "is_symlink"):
+                rep.bad("R02.7", "root-test:" + last, "the repository root is recognised with `.git`.%s(): in a linked worktree or submodule `.git` is a file, so the search walks up into an enclosing checkout and every fact is read from the wrong repository" % last, site)
+            else: rep.undecided("R02.7", "root-test-shape", "`.git` is tested with %s" % last, site)
     return core.finish(rep, explanation=EXPL, assumptions=ASSUME, trusted=TRUST)
 
 EXPL = ("The core of C02 (which tag git considers nearest, what rev-list counts, what status calls dirty) lives in the external git binary over runtime repositories and is NOT decided. Decided is the part written in Rust, which the offline "
